@@ -416,21 +416,21 @@ def schulze_ref(members, d, n):
 
 
 def ref_star(prof, case):
-    """-> list of admissible order-free outcomes (one per completion of a tied run-off boundary)"""
+    """-> (sums, run-off members, beatpath wins, order-free outcome, boundary tie?).  The run-off is held among the
+    `runoff_size` top scorers; candidates tied at the boundary all enter; a run-off of one elects that candidate."""
     n = case['n']
     agg, _ = ref_aggregate(prof, case, 'sum')
     size = n + case['added_count'] + math.ceil(Fraction(case['added_fraction']) * n)
     cands, d = pairwise_from_scores(prof, case)
     sure, level, places = nbest_ref(agg, size)
-    # a tie at the run-off boundary: any way of filling the run-off from the tied candidates is admissible, and so is
-    # letting all of them in
-    completions = [sure] if level is None else \
-        [sure | set(x) for x in itertools.combinations(sorted(level), places)] + [sure | set(level)]
-    outs = []
-    for members in completions:
+    members = set(sure) | (set(level) if level is not None else set())
+    if len(members) <= 1:
+        wins = {c: 0 for c in members}
+        outcome = (set(members) if n >= 1 else set(), None, 0)
+    else:
         wins = schulze_ref(members, d, n)
-        outs.append((members, wins, nbest_ref(wins, n)))
-    return agg, outs, level is not None
+        outcome = nbest_ref(wins, n)
+    return agg, members, wins, outcome, level is not None
 
 
 # -- allocated score
@@ -626,20 +626,19 @@ def oracle(case, obs):
             return [('mj_winners', f"sure {sorted(r['winners'])}, tied {sorted(r['tie'])}, got {obs}")]
         return []
     if op == 'star':
-        agg, outs, boundary = ref_star(prof, case)
+        agg, members, wins, (sure, level, places), boundary = ref_star(prof, case)
         if any(v is None for v in agg.values()):
             return [] if _is_err(obs) else [('star_undefined_accepted', str(obs))]
         if _is_err(obs):
             return [('star_unexpected_error', obs['err'])]
         cands, ties = canon_sel(obs)
-        for members, wins, (sure, level, places) in outs:
-            if cands == sorted(sure) and ((level is None and not ties) or
-                                          (level is not None and ties and all(list(t) == sorted(level) for t in ties))):
-                return []
-        m0, w0, (s0, l0, p0) = outs[0]
+        if cands == sorted(sure) and ((level is None and not ties) or
+                                      (level is not None and len(ties) == places and
+                                       all(list(t) == sorted(level) for t in ties))):
+            return []
         _, d = pairwise_from_scores(prof, case)
-        invisible = [m for m in m0 if all(d[m][x] == 0 and d[x][m] == 0 for x in m0 if x != m)]
-        if len(m0) < 2:
+        invisible = [m for m in members if all(d[m][x] == 0 and d[x][m] == 0 for x in members if x != m)]
+        if len(members) < 2:
             clause = 'star_single_runoff'
         elif boundary:
             clause = 'star_boundary_tie'
@@ -647,7 +646,7 @@ def oracle(case, obs):
             clause = 'star_member_dropped'      # a run-off member nobody strictly prefers or disprefers to another member
         else:
             clause = 'star_runoff_pairwise'
-        return [(clause, f'run-off {sorted(m0)} path wins {w0}: expected {sorted(s0)} tie {l0}, got {obs}')]
+        return [(clause, f'run-off {sorted(members)} path wins {wins}: expected {sorted(sure)} tie {level}, got {obs}')]
     if op == 'allocated':
         results, quota, _ = ref_allocated(prof, case['n'], case['quota'], tie_orders=True)
         canon = set()
@@ -875,7 +874,7 @@ def _raw_generate(rng, tier):
             c['_tags'] = []
             yield c
     # directed random: majority-judgment ties (few grades, full ballots), equal-size and unequal-size
-    for _ in range(2500 if q else 15000):
+    for _ in range(6000 if q else 25000):
         m = rng.randint(2, 5)
         full = rng.random() < 0.6
         gr = rng.choice([[1, 2, 2, 3], [0, 1, 2], [1, 2], [0, 1, 2, 3, 4, 5]])
@@ -977,10 +976,17 @@ def _tag(case):
                 tags.append('mj_tie_' + case['tie_breaking'])
                 tags.append('mj_' + r['kind'])
         if op == 'star':
-            _, outs, boundary = ref_star(prof, case)
+            _, members, wins, (s0, l0, p0), boundary = ref_star(prof, case)
             tags.append('star_boundary_tie' if boundary else 'star_runoff')
-            m0, w0, (s0, l0, p0) = outs[0]
-            if not boundary and len(m0) >= 2 and case['n'] == 1:
+            if len(members) <= 1:
+                tags.append('star_runoff_of_one')
+            elif len(members) == 2:
+                tags.append('star_two_finalists')
+            else:
+                tags.append('star_many_finalists')
+            if l0 is not None:
+                tags.append('star_runoff_tied')
+            if len(members) >= 2 and case['n'] == 1:
                 leader = max(agg, key=lambda c: agg[c])
                 if s0 and leader not in s0:
                     tags.append('star_leader_loses_runoff')
@@ -999,7 +1005,8 @@ REQUIRED_COUNTERS = ['pav_unique', 'pav_refusal', 'pav_one_seat', 'pav_one_seat_
                      'fn_mean', 'fn_sum', 'fn_median_low', 'unscored_None', 'unscored_0', 'unscored_min',
                      'truncation_fraction', 'truncation_count', 'min_count_binds', 'partial_ballot',
                      'score_boundary_tie', 'score_clear', 'mj_tie_default', 'mj_tie_plus', 'mj_ok', 'mj_unbreakable',
-                     'star_runoff', 'star_leader_loses_runoff', 'allocated_droop', 'allocated_hare', 'fraction_count']
+                     'star_runoff', 'star_boundary_tie', 'star_runoff_of_one', 'star_two_finalists', 'star_many_finalists', 'star_runoff_tied',
+                     'star_leader_loses_runoff', 'allocated_droop', 'allocated_hare', 'fraction_count']
 
 
 def nontrivial(case, obs):
@@ -1057,17 +1064,18 @@ REQUIRED = ['pav_eq_spec', 'pavSpec_some_iff', 'pav_returns_iff_unique_maximiser
             'score_truncation_eq_spec', 'score_unscored_eq_spec', 'score_min_count_eq_spec',
             'mj_elects_highest_medians', 'star_runoff_pairwise', 'star_eq_schulze_of_runoff',
             'allocated_spends_one_quota', 'allocated_fraction_out_spec',
-            'mj_default_tiebreak_witness', 'mj_default_tiebreak_scale_witness', 'star_single_runoff_witness',
-            'star_boundary_tie_witness', 'star_member_dropped_witness', 'allocated_empty_ballot_witness',
+            'star_members_spec', 'star_member_matrix', 'star_two_finalists',
+            'star_single_runoff_fixed', 'star_boundary_tie_fixed', 'star_member_dropped_fixed',
+            'mj_default_tiebreak_witness', 'mj_default_tiebreak_scale_witness', 'allocated_empty_ballot_witness',
             'allocated_ballots_run_out_witness']
 
 UNPROVED = [
     'mj_default_tiebreak_eq_one_at_a_time: for tied candidates holding equally many grades the default tie-break (removal of '
     '`closest_change` median grades per step) equals the one-grade-at-a-time Balinski-Laraki rule (oracle-checked on every '
     'generated case; FALSE for unequal numbers of grades: mj_default_tiebreak_witness)',
-    'star_elects_runoff_winner (general): STAR = Schulze winner among the top `runoff_size` scorers for run-offs of more than two '
-    'finalists and under boundary ties (FALSE on the current code: star_*_witness); proved: the two-finalist run-off '
-    '(star_runoff_pairwise)',
+    'schulze_correct: that the Schulze evaluator called for run-offs of more than two finalists ranks by true beatpath strength '
+    'is C05 territory; for STAR it is proved that the evaluator is called on exactly the member matrix (star_eq_schulze_of_runoff, '
+    'star_members_spec, star_member_matrix) and that two finalists are decided by pairwise majority (star_two_finalists)',
     'allocated_eq_spec (whole loop): the sequence of winners equals the defining round-by-round procedure on every profile '
     '(FALSE on the current code for exhausted / bullet ballots and order-dependent under ties: allocated_*_witness, open '
     'findings); proved: every seat spends exactly one quota of the strongest supporters (allocated_spends_one_quota, '
@@ -1098,12 +1106,12 @@ TECHNIQUE = ('Lean 4: code-shaped models of approval.py / cardinal.py / convert.
              '(arg-max over all n-subsets, round-wise arg-max, weighted mean / sum / counting median), justified representation by '
              'the swap-and-average argument; differential correspondence of every model with votelib; independent brute-force '
              'Python references as oracle')
-LEVEL_TEXT = ('PAV, SPAV, score aggregation, majority judgment (first stage), the two-finalist STAR run-off are proved for all '
+LEVEL_TEXT = ('PAV, SPAV, score aggregation, majority judgment (first stage), the STAR run-off construction are proved for all '
               'profiles and seat numbers: PAV returns exactly the unique maximiser of the harmonic satisfaction (refusal otherwise), '
               'independently of the instance history; PAV committees satisfy justified representation; every SPAV round elects the '
               'strict arg-max of the reweighted approvals; aggregates are the exact weighted mean / sum / lower median; MJ elects '
               'above and never below the n-th highest median; every allocated-score seat spends exactly one quota of the strongest '
-              'supporters. The MJ default tie-break, larger STAR run-offs and the allocated-score round loop as a whole are modelled '
+              'supporters. STAR is the Schulze selection on the exact pairwise matrix of its run-off members (boundary ties all enter). The MJ default tie-break and the allocated-score round loop as a whole are modelled '
               'and tied by correspondence; their defects on the current code are proved as witnesses and recorded '
               'as open findings.')
 LEVEL_NOTE = ('Trusted: Lean kernel + propext/Classical.choice/Quot.sound; translate.py for the quota functions; the correspondence '
